@@ -1,1 +1,210 @@
-// shared helpers live in the vreplay crate
+//! A strict parser of the Prometheus text exposition format, written from the format specification
+//! (https://prometheus.io/docs/instrumenting/exposition_formats/#text-format-details). It is the native oracle of the
+//! C07/C08 replays: it shares no code with the exporter.
+
+#[derive(Debug, Clone, PartialEq)]
+pub struct Sample {
+    pub name: String,
+    pub labels: Vec<(String, String)>,
+    pub value: String,
+}
+
+#[derive(Debug, Clone, PartialEq)]
+pub enum Line {
+    Help(String, String),
+    Type(String, String),
+    Sample(Sample),
+    Blank,
+}
+
+pub fn is_metric_name(s: &str) -> bool {
+    let mut it = s.chars();
+    match it.next() {
+        Some(c) if c.is_ascii_alphabetic() || c == '_' || c == ':' => {}
+        _ => return false,
+    }
+    it.all(|c| c.is_ascii_alphanumeric() || c == '_' || c == ':')
+}
+
+pub fn is_label_name(s: &str) -> bool {
+    let mut it = s.chars();
+    match it.next() {
+        Some(c) if c.is_ascii_alphabetic() || c == '_' => {}
+        _ => return false,
+    }
+    it.all(|c| c.is_ascii_alphanumeric() || c == '_')
+}
+
+/// un-escape a label value (`\\`, `\"`, `\n` only) or a HELP text (`\\`, `\n` only)
+pub fn unescape(s: &str, help: bool) -> Result<String, String> {
+    let mut out = String::new();
+    let mut it = s.chars();
+    while let Some(c) = it.next() {
+        match c {
+            '\\' => match it.next() {
+                Some('\\') => out.push('\\'),
+                Some('n') => out.push('\n'),
+                Some('"') if !help => out.push('"'),
+                other => return Err(format!("invalid escape \\{:?}", other)),
+            },
+            '\n' => return Err("raw newline".into()),
+            '"' if !help => return Err("raw quote".into()),
+            c => out.push(c),
+        }
+    }
+    Ok(out)
+}
+
+fn is_value(s: &str) -> bool {
+    matches!(s, "NaN" | "+Inf" | "-Inf" | "Inf") || s.parse::<f64>().is_ok()
+}
+
+pub fn parse_line(l: &str) -> Result<Line, String> {
+    if l.is_empty() {
+        return Ok(Line::Blank);
+    }
+    if let Some(rest) = l.strip_prefix("# HELP ") {
+        let (name, text) = rest.split_once(' ').unwrap_or((rest, ""));
+        if !is_metric_name(name) {
+            return Err(format!("HELP: bad metric name {:?}", name));
+        }
+        return Ok(Line::Help(name.to_string(), unescape(text, true).map_err(|e| format!("HELP text: {}", e))?));
+    }
+    if let Some(rest) = l.strip_prefix("# TYPE ") {
+        let (name, ty) = rest.split_once(' ').ok_or("TYPE: missing type")?;
+        if !is_metric_name(name) {
+            return Err(format!("TYPE: bad metric name {:?}", name));
+        }
+        if !matches!(ty, "counter" | "gauge" | "histogram" | "summary" | "untyped") {
+            return Err(format!("TYPE: unknown type {:?}", ty));
+        }
+        return Ok(Line::Type(name.to_string(), ty.to_string()));
+    }
+    if l.starts_with('#') {
+        return Err(format!("comment line that is neither HELP nor TYPE: {:?}", l));
+    }
+    // sample: name [ '{' label '=' '"' value '"' { ',' ... } [','] '}' ] ' ' value
+    let cs: Vec<char> = l.chars().collect();
+    let mut i = 0;
+    while i < cs.len() && cs[i] != '{' && cs[i] != ' ' {
+        i += 1;
+    }
+    let name: String = cs[..i].iter().collect();
+    if !is_metric_name(&name) {
+        return Err(format!("sample: bad metric name {:?}", name));
+    }
+    let mut labels = vec![];
+    if i < cs.len() && cs[i] == '{' {
+        i += 1;
+        loop {
+            if i < cs.len() && cs[i] == '}' {
+                i += 1;
+                break;
+            }
+            let st = i;
+            while i < cs.len() && cs[i] != '=' {
+                i += 1;
+            }
+            let key: String = cs[st..i.min(cs.len())].iter().collect();
+            if !is_label_name(&key) {
+                return Err(format!("sample: bad label name {:?}", key));
+            }
+            if i + 1 >= cs.len() || cs[i + 1] != '"' {
+                return Err("sample: label value must start with a quote".into());
+            }
+            i += 2;
+            let st = i;
+            loop {
+                if i >= cs.len() {
+                    return Err("sample: unterminated label value".into());
+                }
+                if cs[i] == '\\' {
+                    i += 2;
+                    continue;
+                }
+                if cs[i] == '"' {
+                    break;
+                }
+                i += 1;
+            }
+            let raw: String = cs[st..i].iter().collect();
+            let val = unescape(&raw, false).map_err(|e| format!("label value: {}", e))?;
+            labels.push((key, val));
+            i += 1;
+            if i < cs.len() && cs[i] == ',' {
+                i += 1;
+                continue;
+            }
+            if i < cs.len() && cs[i] == '}' {
+                i += 1;
+                break;
+            }
+            return Err("sample: expected ',' or '}' after a label".into());
+        }
+    }
+    if i >= cs.len() || cs[i] != ' ' {
+        return Err("sample: expected a space before the value".into());
+    }
+    let value: String = cs[i + 1..].iter().collect();
+    if !is_value(&value) {
+        return Err(format!("sample: bad value {:?}", value));
+    }
+    Ok(Line::Sample(Sample { name, labels, value }))
+}
+
+/// family-level rules: every sample belongs to a family announced by exactly one TYPE line that precedes it; its name is the
+/// family name or the family name plus a suffix the type allows; HELP at most once per family and before its samples
+pub fn check_exposition(text: &str) -> Result<Vec<Line>, String> {
+    if !text.is_empty() && !text.ends_with('\n') {
+        return Err("the last line is not terminated".into());
+    }
+    let mut lines = vec![];
+    for (n, l) in text.split('\n').enumerate() {
+        lines.push(parse_line(l).map_err(|e| format!("line {}: {} in {:?}", n + 1, e, l))?);
+    }
+    let mut types: Vec<(String, String)> = vec![];
+    let mut helps: Vec<String> = vec![];
+    let mut current: Option<(String, String)> = None;
+    for l in &lines {
+        match l {
+            Line::Type(n, t) => {
+                if types.iter().any(|(x, _)| x == n) {
+                    return Err(format!("second TYPE line for family {:?}", n));
+                }
+                types.push((n.clone(), t.clone()));
+                current = Some((n.clone(), t.clone()));
+            }
+            Line::Help(n, _) => {
+                if helps.contains(n) {
+                    return Err(format!("second HELP line for family {:?}", n));
+                }
+                helps.push(n.clone());
+            }
+            Line::Sample(s) => {
+                let (fam, ty) = current.clone().ok_or_else(|| format!("sample {:?} before any TYPE line", s.name))?;
+                let allowed: &[&str] = match ty.as_str() {
+                    "counter" => &["", "_total", "_created"],
+                    "gauge" | "untyped" => &[""],
+                    "histogram" => &["_bucket", "_sum", "_count", "_created"],
+                    "summary" => &["", "_sum", "_count", "_created"],
+                    _ => &[""],
+                };
+                if !allowed.iter().any(|sfx| s.name == format!("{}{}", fam, sfx)) {
+                    return Err(format!("sample {:?} does not belong to the family {:?} of type {} announced before it", s.name, fam, ty));
+                }
+                if ty == "histogram" && s.name.ends_with("_bucket") && !s.labels.iter().any(|(k, _)| k == "le") {
+                    return Err(format!("bucket sample {:?} without an `le` label", s.name));
+                }
+                let mut keys: Vec<&String> = s.labels.iter().map(|(k, _)| k).collect();
+                keys.sort();
+                let before = keys.len();
+                keys.dedup();
+                if keys.len() != before {
+                    return Err(format!("sample {:?} repeats a label name", s.name));
+                }
+            }
+            Line::Blank => {}
+        }
+    }
+    Ok(lines)
+}
